@@ -239,7 +239,7 @@ def differs(a, b, rel='eq'):
     return a != b
 
 
-def decide_case(d, case, workdir, timeout=60, rnd=None, split_timeout=None, max_group=64):
+def decide_case(d, case, workdir, timeout=60, rnd=None, split_timeout=None, max_group=64, group_timeout=None):
     """returns list of results per EQ: dict(label, status in {unsat, trivial, cex, inconclusive}, assign (for cex), queries, solver_s)
     plus case-level info"""
     rnd = rnd or random.Random(0)
@@ -357,7 +357,7 @@ def decide_case(d, case, workdir, timeout=60, rnd=None, split_timeout=None, max_
         res.append({'label': e['label'], 'status': 'inconclusive', 'why': 'z3 %s in %ds; %d rational points agree' % (r, to, rp[1]), 'queries': 1, 'solver_s': w})
 
     for g in groups:
-        r, so, w = query(g, timeout)
+        r, so, w = query(g, timeout if len(g) == 1 else (group_timeout or timeout))
         if r == 'unsat':
             for e in g:
                 res.append({'label': e['label'], 'status': 'unsat', 'queries': 1.0 / len(g), 'solver_s': w / len(g)})
